@@ -392,3 +392,86 @@ Section Sim.
     Qed.
   End Solve.
 End Sim.
+
+(* ------------------------------------------------------------------ what transfers *)
+From YP Require Import Engine.DbSpec.
+
+(* the cursor machine in the state of the compiled run: same database, same identity counter, no generator *)
+Definition st_of (g : glob) : DbCursor.st := mkst (gdb g) (gid g) (fun _ => CNone).
+
+Lemma Rst_st_of g : Rst g (st_of g).
+Proof. split; reflexivity. Qed.
+
+Lemma ids_ok_ext (d1 d2 : db) n : (forall k, d1 k = d2 k) -> ids_ok d1 n -> ids_ok d2 n.
+Proof.
+  intros E [A [B C]]. repeat split.
+  - intros k. rewrite <- E. apply A.
+  - intros k f. rewrite <- E. apply B.
+  - intros k k' i. rewrite <- !E. apply C.
+Qed.
+
+Lemma removed_dbouts outs : removed (dbouts outs) = removed outs.
+Proof.
+  induction outs as [|o r IH]; simpl; auto. unfold removed in *. destruct o; simpl; rewrite ?IH; auto.
+Qed.
+
+Lemma tr_eqv_removed tr outs : tr_eqv tr outs -> removed tr = removed outs.
+Proof.
+  induction 1 as [|o o' tr outs Q _ IH]; auto. unfold removed in *. simpl. rewrite IH. f_equal.
+  destruct o; destruct o'; simpl in Q; try contradiction; try discriminate; try (inversion Q; subst; reflexivity).
+  destruct Q as [_ [-> _]]. reflexivity.
+Qed.
+
+Section Transfer.
+  Variable uf : nat.
+  Variable prog : program.
+  Hypothesis Hprog : prog_ok prog.
+  Notation mt := (match_fact uf).
+
+  (* C14_no_lost_update / C14_retract_at_most_once / C07_ids_invariant of the history, read in the compiled run *)
+  Theorem prog_history_no_lost_update n gs s g g' a tr F :
+    cinv F gs s g -> ids_ok (gdb g) (gid g) -> solve uf prog n gs s g = Some (g', a, tr) ->
+    exists evs st' outs, run mt (st_of g) evs = Some (st', outs) /\ Rst g' st' /\ tr_eqv tr (dbouts outs) /\
+      (forall k, gdb g' k = apply_outs outs (gdb g) k) /\ ids_ok (gdb g') (gid g') /\
+      NoDup (removed outs) /\ removed tr = removed outs.
+  Proof.
+    intros CI I H. destruct (@prog_run_is_cursor_history uf prog Hprog n gs s g g' a tr F (st_of g) CI H (Rst_st_of g))
+      as [evs [st' [outs [A [B C]]]]].
+    exists evs, st', outs. split; [exact A|]. split; [exact B|]. split; [exact C|].
+    destruct (@no_lost_update mt evs (st_of g) st' outs I A) as [D E]. destruct B as [B1 B2].
+    split; [intros k; rewrite <- B1; apply D|]. split; [rewrite <- B2; eapply ids_ok_ext; [exact B1|exact E]|].
+    split; [exact (@retract_at_most_once mt evs (st_of g) st' outs I A)|].
+    rewrite (tr_eqv_removed C). apply removed_dbouts.
+  Qed.
+
+  (* C14_cursor_visits_snapshot of the history: whatever the rest of the run does, every generator of the history
+     that has its snapshot returns exactly the matching facts of that snapshot, in order, then StopIteration *)
+  Theorem prog_history_cursor_visits_snapshot n gs s g g' a tr F :
+    cinv F gs s g -> solve uf prog n gs s g = Some (g', a, tr) ->
+    exists evs st' outs, run mt (st_of g) evs = Some (st', outs) /\ Rst g' st' /\ tr_eqv tr (dbouts outs) /\
+      forall pre post st1 o1 st2 o2 c L, evs = pre ++ post ->
+        run mt (st_of g) pre = Some (st1, o1) -> run mt st1 post = Some (st2, o2) ->
+        cur_stream mt (scur st1 c) = Some L -> no_ctl c post ->
+        outs_of c post o2 = expect L (length (outs_of c post o2)).
+  Proof.
+    intros CI H. destruct (@prog_run_is_cursor_history uf prog Hprog n gs s g g' a tr F (st_of g) CI H (Rst_st_of g))
+      as [evs [st' [outs [A [B C]]]]].
+    exists evs, st', outs. split; [exact A|]. split; [exact B|]. split; [exact C|].
+    intros pre post st1 o1 st2 o2 c L _ _ R2 HL NC. eapply cursor_visits_snapshot; eauto.
+  Qed.
+
+  (* C07_db_refines_list_spec of the history: when the history of the run is a sequence of atomic operations
+     (no goal suspended around a database operation), what the run sees and leaves is what the list
+     specification says *)
+  Theorem prog_history_refines_list_spec n gs s g g' a tr F :
+    cinv F gs s g -> ids_ok (gdb g) (gid g) -> solve uf prog n gs s g = Some (g', a, tr) ->
+    exists evs st' outs, run mt (st_of g) evs = Some (st', outs) /\ Rst g' st' /\ tr_eqv tr (dbouts outs) /\
+      forall ops d0, evs = flat_map compile ops -> R d0 (st_of g) ->
+        map vis outs = snd (srun mt d0 ops) /\ R (fst (srun mt d0 ops)) st'.
+  Proof.
+    intros CI I H. destruct (@prog_run_is_cursor_history uf prog Hprog n gs s g g' a tr F (st_of g) CI H (Rst_st_of g))
+      as [evs [st' [outs [A [B C]]]]].
+    exists evs, st', outs. split; [exact A|]. split; [exact B|]. split; [exact C|].
+    intros ops d0 E0 R0. subst evs. exact (@db_refines_list_spec mt ops (st_of g) st' outs d0 I R0 A).
+  Qed.
+End Transfer.
